@@ -34,6 +34,8 @@ def check(model, R, tier):
     K.check_window_axis(model, R, 'C01')
     from sa import rules_axis as A
     A.check_axis(model, R, 'C01', scope='backward')
+    from sa import rules_hygiene as _H
+    _H.check_dim_tests(model, R, 'C01', scope='backward', modules=('synapgrad.cpu_ops', 'synapgrad.functional'))
     return dict(
         explanation='Static template + abstract-interpretation check of the 26 tensor-op wrappers and their backward kernels: decides the wiring '
                     '(children/kernel pairing/argument binding/accumulation), linearity of every returned gradient in the upstream gradient, un-broadcast '
